@@ -125,7 +125,7 @@ PROPS = {
                  + ["Ldlm.Core.advanceTo_keeps_later", "Ldlm.Core.advanceTo_prompt", "Ldlm.Props.C12.lease_units_pinned"],
         streams=[SEQ],
         level_text="Over M2 in exact virtual time, for every state satisfying the reachability invariant: a grant with lock timeout t stores a lease with deadline exactly now + t*10^9 (unit pinned to time.Second by a regenerated fact); advancing to any instant before a deadline leaves that lease and its hold in place (no early release); after an advance no lease with a deadline at or before the new time is left (prompt expiry; fuel exhaustion is reported, never silent) and a fired lease's hold is gone; a successful Renew sets the deadline to exactly now + t*10^9 and touches nothing else; Renew without a lease fails; a dead key's Unlock/Renew fail and change nothing. Tied to the code by seqdiff with time steps to deadline-1ns / deadline / deadline+1ns, renew with different T, renew after expiry, and an arithmetic lease monitor on the implementation trace.",
-        level_note="'A hold taken without a lock timeout never expires' is proved as 'no lease is stored' (no_timeout_no_lease) + prompt/early theorems about stored leases; Renew of such a hold fails (renew_requires_lease) - the code's behaviour, stated. lease_not_early_held uses invariant preservation by restart as hypothesis hr. Trusted: Lean kernel, time.AfterFunc/Timer semantics (modelled), synctest clock, hand-written M2.",
+        level_note="'A hold taken without a lock timeout never expires' is proved as 'no lease is stored' (no_timeout_no_lease) + prompt/early theorems about stored leases; Renew of such a hold fails (renew_requires_lease) - the code's behaviour, stated. lease_not_early_held takes the reachability invariant InvS, which holds after every history including restarts (run_invS). Trusted: Lean kernel, time.AfterFunc/Timer semantics (modelled), synctest clock, hand-written M2.",
         technique="Lean 4 proof (induction over the event loop of `advance` under the reachability invariant) + virtual-time sequential differential + arithmetic lease monitor",
         trusted=M2_TRUST,
     ),
@@ -179,12 +179,12 @@ PROPS = {
         modules=[P + "C10"],
         theorems=[P + "C10." + t for t in ("restored_occupy_capacity", "restored_has_default_lease", "only_default_leases", "restored_not_early", "restored_expires_exactly",
                                           "restored_unlock_any_session", "restored_renew_succeeds", "restored_unlock_succeeds", "restored_only_from_file",
-                                          "ended_stays_ended", "startup_total", "restore_loop_pinned")]
-                 + ["Ldlm.Core.run_su", "Ldlm.Core.restart_keysFromFile", "Ldlm.Core.restart_keysLeased", "Ldlm.Core.restart_timersDefault"],
-        status={P + "C10.restored_not_early": "uses hypothesis hr (restart preserves the reachability invariant)"},
+                                          "ended_stays_ended", "ended_stays_ended_reachable", "restored_not_early_reachable", "startup_total", "restore_loop_pinned")]
+                 + ["Ldlm.Core.run_su", "Ldlm.Core.restart_keysFromFile", "Ldlm.Core.restart_keysLeased", "Ldlm.Core.restart_timersDefault", "Ldlm.Core.restart_inv'", "Ldlm.Core.rj_step", "Ldlm.Core.run_invS"],
+        status={},
         streams=[SEQ],
-        level_text="M2's restart is server.New on the file the previous run left: a fold of TryLock / RemoveLock / default-lease Add over an ARBITRARY table (call list and timeout expression regenerated from the source and pinned). Proved for every pre-restart state, configuration and file content: every hold in the table after a restart comes from the loaded file, has a lease timer with deadline restart time + DefaultLockTimeout and there is no other timer; capacity holds after any history with any number of restarts (C01), so an over-full file restores at most size holds; Unlock ignores the calling session, Renew has none, and both succeed with the original key; no default lease survives restart time + DefaultLockTimeout and (under hr) the hold is still there at every earlier instant; a hold absent from the table before a restart is absent after it (via booked=>held and file=bookkeeping); session ids are unique in bookkeeping and file for every history including restarts (run_su, no hypothesis); restart is total. Tied to the code by seq histories with many restarts (default lease time varied, time steps to deadline-1ns/deadline/deadline+1ns, unlock/renew from other sessions, competing grants), differential against the model plus a model-independent monitor: ended holds never return, every file entry is restored, restored holds have timers, server.New never fails or panics.",
-        level_note="restored_not_early relies on hr (restart preserves Inv'), not yet proved; everything else is hypothesis-free or per-state. D? (nil dereference in server.New's log call on a failed restore) was found by this check on the original tree and repaired (fix: commit 20311a8). Trusted: Lean kernel, hand-written M2, the differential tie, virtual time (testing/synctest).",
+        level_text="M2's restart is server.New on the file the previous run left: a fold of TryLock / RemoveLock / default-lease Add over an ARBITRARY table (call list and timeout expression regenerated from the source and pinned). Proved for every pre-restart state, configuration and file content: every hold in the table after a restart comes from the loaded file, has a lease timer with deadline restart time + DefaultLockTimeout and there is no other timer; capacity holds after any history with any number of restarts (C01), so an over-full file restores at most size holds; Unlock ignores the calling session, Renew has none, and both succeed with the original key; no default lease survives restart time + DefaultLockTimeout and the hold is still there at every earlier instant; a hold absent from the table before a restart is absent after it (via booked=>held and file=bookkeeping); session ids are unique in bookkeeping and file for every history including restarts (run_su, no hypothesis); restart is total. Tied to the code by seq histories with many restarts (default lease time varied, time steps to deadline-1ns/deadline/deadline+1ns, unlock/renew from other sessions, competing grants), differential against the model plus a model-independent monitor: ended holds never return, every file entry is restored, restored holds have timers, server.New never fails or panics.",
+        level_note="restart is proved to preserve the reachability invariant (restart_inv': loop invariant over the linearised file, pair uniqueness from the bookkeeping invariant), so the _reachable forms hold after every history, further restarts included. D? (nil dereference in server.New's log call on a failed restore) was found by this check on the original tree and repaired (fix: commit 20311a8). Trusted: Lean kernel, hand-written M2, the differential tie, virtual time (testing/synctest).",
         technique="Lean 4 proof (fold induction over an arbitrary state file; inductive invariants) + sequential differential correspondence with restarts + restart monitor",
         trusted=M2_TRUST,
     ),
@@ -222,7 +222,7 @@ PROPS = {
                  + ["Ldlm.Pins.pin_" + t for t in ("RenewerStart", "RenewerStop", "ClientUnlock", "ClientClose", "ClientRenew", "MaybeCreateRenewer", "MaybeRemoveRenewer", "RpcWithRetry")],
         status={P + "C19.second_hold_same_name_panics": "states the code's behaviour K19a (known finding): several holds of one counting lock are NOT handled",
                 P + "C19.old_stop_misses_busy_renewer": "refutation witness for the Stop before repair 9e742fe",
-                P + "C19.keeps_alive": "uses hypothesis hr (restart preserves the reachability invariant; client histories contain no restart)"},
+},
         streams=[CLIENTMODEL, CLIENT],
         level_text="M5 = the client's renew map and renew timers over M2. Proved: the renew interval is strictly below every lock timeout above the 10 s minimum (constants and operators regenerated from the source); for EVERY history of TryLock (timeout 0 or above the minimum) / Unlock / clock advance on an auto-renewing client, either the client died of the out-of-sync panic (K19a) or every hold that has a renewer is held at the server with its lease deadline after the next Renew and no renewer failed, and every RPC sent during an advance is a successful Renew (induction over the history and, inside an advance, over the renew instants; uses M2's lease theorems); Unlock removes exactly the renewer of its name and leaves every other name alone; the retry rule for all outcome sequences (at most MaxRetries+1 attempts, retried only on Unavailable, last outcome returned) and every RPC call site is inside rpcWithRetry (regenerated). Races (M5c): Unlock thread, Close thread and renew goroutine of the repaired Stop, one step per channel operation, any schedule: no Renew sent after Unlock/Close returned, no panic, the RPC only after the goroutine exited, Stop never stuck; the Stop before the repair has a kernel-checked failing schedule. Tied to the code by clientmodel (M5 vs the real client, RPC traces in virtual time; retry table; renewer retry path) and by the monitor + controlled-interleaving stream on the instrumented client.",
         level_note="PARTIAL by K19a: the renew map is keyed by the lock name alone (regenerated fact renewMapKey), so a second auto-renewed hold of one counting lock panics in the caller - recorded, not repaired: keying by (name, key) changes what the repository's own tests store in and expect of the map. The Stop defect (Unlock/Close racing a busy renewer: Renew after Unlock returned, goroutine panic, send on closed channel) was found by the interleaving stream and repaired (fix: commit 9e742fe). Zero RPC latency in M5; real latency is covered only by the race model. Trusted: Lean kernel, hand-written M5/M5c/M2, the differential ties, Go channel/select/sync.Once semantics (modelled).",
@@ -232,23 +232,23 @@ PROPS = {
     "C07": dict(
         modules=[P + "C07"],
         theorems=[P + "C07." + t for t in ("failed_inert", "timerKey_injective", "unlock_frame_locks", "renew_frame", "waitTimeout_frame")]
-                 + ["Ldlm.Core.step_inv", "Ldlm.Core.inv_blocks", "Ldlm.Core.init_inv'"],
-        status={"Ldlm.Core.step_inv": "reachability: invariant preserved by every operation (restart: hypothesis hr, proved separately when CoreRestart is present)"},
+                 + [P + "C07.reachable", P + "C07.failed_inert_reachable", "Ldlm.Core.step_invS", "Ldlm.Core.run_invS", "Ldlm.Core.restart_inv'", "Ldlm.Core.inv_blocks"],
+        status={},
         streams=[SEQ],
         level_text="For every state satisfying the reachability invariant and every Lock/TryLock/Unlock/Renew/admin-unlock request that answers with an error, sizes, key lists, waiter queues, lease timers, session table, state file and blocked calls are proved unchanged (idle clock and key counter excluded and named); the lease-timer key is proved injective on byte strings, and Unlock/Renew are proved to leave other locks / other pairs' leases alone. Tied to the code by seqdiff over adversarial name/key alphabets (a, ab, b+K, …) with a model-independent 'snapshot before = snapshot after' monitor.",
-        level_note="The invariant is proved preserved by every operation except restart, for which preservation is an explicit hypothesis (hr) until Proofs/CoreRestart lands; failed_inert itself is per-state. Trusted: Lean kernel, hand-written M2, uuid freshness (KeysInjective), the differential tie. D1 (timer-key collision) was found by this check on the original tree and repaired (fix: commit bb3b219).",
+        level_note="The reachability invariant is proved preserved by every operation including restart (Proofs/CoreRestart: loop invariant over the linearised file), so failed_inert_reachable holds after every history with no hypothesis beyond lawfulness of the table representation (proved for both) and freshness of generated keys. Trusted: Lean kernel, hand-written M2, uuid freshness (KeysInjective), the differential tie. D1 (timer-key collision) was found by this check on the original tree and repaired (fix: commit bb3b219).",
         technique="Lean 4 proof (per-step case analysis under an inductive invariant; injectivity of the timer-key encoding) + sequential differential correspondence + before/after monitor",
         trusted=M2_TRUST,
     ),
     "C08": dict(
         modules=[P + "C08"],
         theorems=[P + "C08." + t for t in ("listed_is_held", "held_is_listed_partial", "views_agree_partial", "listing_unique", "file_is_listing", "file_decodes", "noclear_views_differ")]
-                 + ["Ldlm.Core.step_inv", "Ldlm.Core.inv_blocks"],
+                 + [P + "C08.reachable", P + "C08.listed_is_held_reachable", P + "C08.views_agree_reachable", "Ldlm.Core.run_invS", "Ldlm.Core.restart_inv'"],
         status={P + "C08.held_is_listed_partial": "partial (hypothesis noClear = false)", P + "C08.views_agree_partial": "partial (hypothesis noClear = false)",
                 P + "C08.noclear_views_differ": "refutation witness (K1)"},
         streams=[SEQ],
         level_text="Listing ⊆ table is proved for every reachable state and configuration; table ⊆ listing and hence the pointwise equivalence only with clearing on disconnect (with no-clear it is false of the code: known finding K1, kernel-checked counterexample). File = session table up to hold-less new sessions is proved; the file bytes decode to that table by C17's round trip. Tied to the code by seqdiff carrying all three views (listing, decoded file through a second handle, lock table) after every operation, with foreign-session unlocks, both disconnect policies, restarts.",
-        level_note="Partial by K1 (no-clear-on-disconnect drops bookkeeping while capacity stays occupied). Invariant preservation by restart is hypothesis hr until Proofs/CoreRestart lands. D2 (foreign-session unlock left the hold listed) was found by this check and repaired (fix: commit e6a606e). Trusted: Lean kernel, hand-written M2, the differential tie.",
+        level_note="Partial by K1 (no-clear-on-disconnect drops bookkeeping while capacity stays occupied). The invariant holds after every history including restarts (run_invS). D2 (foreign-session unlock left the hold listed) was found by this check and repaired (fix: commit e6a606e). Trusted: Lean kernel, hand-written M2, the differential tie.",
         technique="Lean 4 proof (pointwise inductive invariant booked⇔held, bookkeeping uniqueness, file/session relation) + three-view sequential differential correspondence",
         trusted=M2_TRUST,
     ),
